@@ -1,0 +1,14 @@
+//go:build verif
+
+package scheduler
+
+import "time"
+
+// VerifSetPause sets the polling pause of the scheduling loop.
+// It exists only under the `verif` build tag and is used by the external
+// verification harness to make simulated runs cheap. The loop is unchanged.
+func (sc *Scheduler) VerifSetPause(d time.Duration) {
+	sc.mu.Lock()
+	defer sc.mu.Unlock()
+	sc.pause = d
+}
